@@ -120,6 +120,17 @@ def run(ctx):
         knl_n = float(np.atleast_1d(hf._get_spec(kk, dd)[0])[0])
         if abs(knl_n / knl_u - 1) > 0.15:
             viol("knl-condition/non-uniform-grid", f"non-linear scale on a non-uniform k grid is {knl_n:.4g}, on the uniform grid {knl_u:.4g}")
+        # a grid that contains the cut wavenumber 0.005 itself: "k <= 0.005" includes the boundary
+        from scipy.interpolate import InterpolatedUnivariateSpline as Spl_
+        kb = 0.001 * np.arange(1, 3001)
+        db = np.exp(Spl_(np.log(T.k), np.log(T.delta_k), k=3)(np.log(kb)))
+        for tak in (True, False):
+            nb = hf.halofit(kb, db, None, 0.0, T.cosmo, tak)
+            lowb = kb <= 0.005
+            if not np.array_equal(nb[lowb], db[lowb]):
+                j_ = int(np.argmax(np.abs(nb[lowb] / db[lowb] - 1)))
+                viol("lowk-identity/boundary", f"non-linear spectrum differs from the linear one at k={kb[lowb][j_]:.4g} <= 0.005 (rel. dev {float(np.abs(nb[lowb][j_] / db[lowb][j_] - 1)):.3g}) on a grid containing the cut wavenumber itself",
+                     {"k": float(kb[lowb][j_]), "takahashi": tak})
         res = eval_lean_many(reqs)
         nbad = 0
         for (got, desc), g in zip(exp, res):
